@@ -39,6 +39,8 @@ type Rig struct {
 	StallLimit   uint64
 	Stalled      bool
 	lastProgress uint64
+	// ConnTweak, when set, may adjust a connection's drawn configuration.
+	ConnTweak func(name string, cfg *simnet.Config)
 	// Abort, when set and true, ends the run (first violation found).
 	Abort func() bool
 	// Kick lists further components to start ticking when the run starts.
@@ -120,6 +122,9 @@ func (r *Rig) Conn(name string, ports ...sim.Port) *simnet.FaultyConn {
 	if r.Ch.Bool(1, 3, "conn.perdst") {
 		cfg.DeliverPerDst = 1 + r.Ch.Intn(2, "conn.perdstn")
 	}
+	if r.ConnTweak != nil {
+		r.ConnTweak(name, &cfg)
+	}
 	r.Mix("conn."+name, cfg)
 	c := simnet.New(name, r.Eng, r.Freq, r.Ch, cfg)
 	for _, p := range ports {
@@ -171,10 +176,13 @@ func (r *Rig) Requester(name string, inBuf, outBuf int) *stubs.Requester {
 	if r.Swarm.Hold {
 		q.HoldNum, q.HoldDen = 1, 2+r.Ch.Intn(6, "req.holdden")
 		q.MaxHolds = 1 + r.Ch.Intn(30, "req.maxholds")
+		if r.Ch.Bool(1, 3, "req.longhold") {
+			q.HoldBurstMax = 2 + r.Ch.Intn(300, "req.holdburst")
+		}
 	}
 	q.RetrievePerCycle = r.Ch.Intn(3, "req.retr")
 	q.SendPerCycle = 1 + r.Ch.Intn(4, "req.sendpc")
-	r.Mix("req."+name, []int{q.HoldDen, q.MaxHolds, q.RetrievePerCycle, q.SendPerCycle})
+	r.Mix("req."+name, []int{q.HoldDen, q.MaxHolds, q.HoldBurstMax, q.RetrievePerCycle, q.SendPerCycle})
 	r.Reqs = append(r.Reqs, q)
 	return q
 }
